@@ -37,7 +37,7 @@ import (
 	"com.tuntun.rangers/node/src/middleware/types"
 )
 
-const splitLevel = 4 // levels below are explored by every worker, the frontier at this level is partitioned
+const splitLevel = 3 // levels below are explored by every worker, the frontier at this level is partitioned
 
 type kase struct {
 	History []string `json:"history"`
@@ -92,7 +92,7 @@ func oddLevels(c *fw.Ctx) int {
 }
 
 func enabledFor(n *bfsNode, op string, level, oddLv int) bool {
-	if isOddId(op) && level >= oddLv {
+	if shallowOnly(op) && level >= oddLv {
 		return false
 	}
 	m := refGroups{list: make([]*types.Group, n.listLen), oddUsed: n.odd}
@@ -321,6 +321,7 @@ func main() {
 		ID: "C19", Level: "model_checking",
 		Rule: "BFS over histories of {add alt0, add alt1, add wrong-PreGroup, add missing-parent, add duplicate-id, remove-last, fork-switch-remove-2, restart} " +
 			"plus the field dimension of valid additions {incoming GroupHeight = count, count-1, count+1, 2^40, 1; pre-filled WorkHeight/DismissHeight} whose model element is the plain addition, " +
+			"plus the production fork switch (groupChainFork.triggerOnChain on the ancestor 1 or 2 below the head, branch of 1-2 groups from the add alphabet incl. refused / ID-dimension / pre-filled-field groups; non-plain branches in states at BFS distance < 3 / 5), " +
 			"plus at most one accepted addition per history, applied in a state at BFS distance < 3 (quick) / 5 (thorough), from the ID dimension {Id = height key of height 0 / last / next / next+1, Id = last-pointer key, Id = count key, Id = genesis id, empty Id, 1-byte Id; otherwise valid} on the real group chain, " +
 			"depth 6 (quick) / 10 (thorough); each transition = fresh instance + replay + one op, merged on the canonical dump of store+side index+memory; " +
 			"a case is a (distinct implementation state, enabled op) pair; non-trivial = source state is not the post-boot state (at least one earlier op)",
